@@ -1,4 +1,70 @@
-(* placeholder until the theorems are in place *)
-From Lhasa Require Import Base S_Larc.
-Example lzs_expand_example : lzs_expand [ALit 65; ACopy 2031 3] = [65; 65; 65; 65]%N.
-Proof. vm_compute. reflexivity. Qed.
+(* Properties_C03.v -- C03: LArc -lzs-/-lz5- and the stored methods decode every
+   valid stream exactly.  Statements only; proofs in P_Null.v, P_Lz5.v, P_Lzs.v.
+   Specification (commands, ring machine, serialisers): S_Larc.v. *)
+From Lhasa Require Import Base ListN DecBase Generated Null Lzs Lz5 Decoder S_Larc
+  P_Decoder P_Null P_Lz5 P_BitReader P_Lzs.
+Local Open Scope N_scope.
+
+(* Stored methods (-lh0-, -lz4-, -pm0-): the compressed bytes come out unchanged
+   up to the declared length, whatever the read schedule (the 1024-byte blocking
+   of the decoder is invisible). *)
+Theorem stored_identity : forall data L ks os d',
+  sum_N ks < 2 ^ 62 -> L <= sum_N ks -> L <= nlen data ->
+  run_reads (null_read src_cb) null_max_read null_block_size
+    (lha_decoder_new tt {| src_data := data; src_chunks := [] |} L) ks = Ok (os, d') ->
+  concat os = firstn_N L data.
+Proof. exact P_Null.stored_identity. Qed.
+
+(* ... and when fewer bytes are present than declared, exactly the bytes present
+   are delivered and the decoder reports the end. *)
+Theorem stored_identity_short : forall data L ks os d',
+  sum_N ks < 2 ^ 62 -> L <= sum_N ks -> nlen data < L ->
+  run_reads (null_read src_cb) null_max_read null_block_size
+    (lha_decoder_new tt {| src_data := data; src_chunks := [] |} L) ks = Ok (os, d') ->
+  concat os = data /\ d_failed d' = true.
+Proof. exact P_Null.stored_identity_short. Qed.
+
+(* -lz5-: for every list of well-formed commands (literal | copy of 3..18 bytes from
+   ANY absolute ring position, never-written and self-overlapping included), any
+   values of the unused flag bits of the last run, any trailing bytes and any read
+   schedule, decoding the serialised stream yields what the commands denote on the
+   4 KiB ring that starts with the LArc fill pattern at position 4096-18. *)
+Theorem lz5_roundtrip : forall junk cmds pad tail s0 ks os d',
+  forallb lz5_wf_cmd cmds = true -> lz5_init = Ok s0 ->
+  nlen (lz5_expand cmds) <= sum_N ks -> sum_N ks < 2 ^ 62 ->
+  run_reads (lz5_read src_cb junk) lz5_max_read lz5_block_size
+    (lha_decoder_new s0 {| src_data := lz5_serialise cmds pad ++ tail; src_chunks := [] |}
+                     (nlen (lz5_expand cmds))) ks = Ok (os, d') ->
+  concat os = lz5_expand cmds.
+Proof. exact P_Lz5.lz5_roundtrip. Qed.
+
+(* the ring the C fills with its five loops is the closed-form LArc pattern *)
+Theorem lz5_initial_ring : forall s0, lz5_init = Ok s0 ->
+  forall p, p < 4096 -> aget (lz5_ring s0) p = lz5_fill_at p.
+Proof. exact P_Lz5.lz5_initial_ring. Qed.
+
+(* -lzs-: the same for the 2 KiB ring of spaces written from position 2048-17,
+   copies of 2..17 bytes.  (Trailing bytes must be bytes: the model's input type
+   would otherwise admit values above 255, which no uint8_t can hold.) *)
+Theorem lzs_roundtrip : forall cmds tail s0 ks os d',
+  forallb lzs_wf_cmd cmds = true -> Forall (fun b => b < 256) tail -> lzs_init = Ok s0 ->
+  let src := {| src_data := lzs_serialise cmds ++ tail; src_chunks := [] |} in
+  let L := nlen (lzs_expand cmds) in
+  L <= sum_N ks -> sum_N ks < 2 ^ 62 ->
+  run_reads (lzs_read src_cb) lzs_max_read lzs_block_size (lha_decoder_new s0 src L) ks = Ok (os, d') ->
+  concat os = lzs_expand cmds.
+Proof. exact P_Lzs.lzs_roundtrip. Qed.
+
+(* non-vacuity: concrete well-formed command lists and their denotation *)
+Example lzs_expand_example : lzs_expand [ALit 65; ACopy 2031 3] = [65; 65; 65; 65]%N /\
+  forallb lzs_wf_cmd [ALit 65; ACopy 2031 3] = true.
+Proof. split; vm_compute; reflexivity. Qed.
+Example lz5_expand_example : lz5_expand [ACopy 0 3; ALit 7; ACopy 4078 4] = [0; 0; 0; 7; 0; 0; 0; 7]%N /\
+  forallb lz5_wf_cmd [ACopy 0 3; ALit 7; ACopy 4078 4] = true.
+Proof. split; vm_compute; reflexivity. Qed.
+
+Print Assumptions stored_identity.
+Print Assumptions stored_identity_short.
+Print Assumptions lz5_roundtrip.
+Print Assumptions lz5_initial_ring.
+Print Assumptions lzs_roundtrip.
